@@ -793,13 +793,17 @@ pub fn plan(tier: Tier) -> Plan {
             units.push(Unit { tree: tree.clone(), workers, quit_at, pbound: pb, rbound: rb, k, m, model: false });
         }
     };
-    let (max_nodes, two_roots) = tier.pick((3, 2), (4, 3));
+    // (thorough keeps the quick tier's trees — every forest with up to three
+    // entries — plus two roots for all of them, and spends its budget on
+    // deeper preemption / Retry bounds and a fourth worker: with four-entry
+    // trees the bound-3 exploration did not finish within an hour)
+    let (max_nodes, two_roots) = tier.pick((3, 2), (3, 3));
     let specs = tree_specs(max_nodes, two_roots);
     // (workers, preemption bound, retry bound) for no-quit runs and for quit runs
     let cfg: Vec<(usize, usize, usize, usize)> = match tier {
         // workers, pbound(no quit), rbound, pbound(quit)
         Tier::Quick => vec![(2, 2, 1, 2), (3, 1, 0, 1)],
-        Tier::Thorough => vec![(2, 3, 1, 2), (3, 2, 1, 1), (4, 1, 0, 1)],
+        Tier::Thorough => vec![(2, 3, 1, 2), (3, 2, 0, 1), (4, 1, 0, 1)],
     };
     for spec in specs.iter() {
         for &(w, pb, rb, pbq) in cfg.iter() {
@@ -816,7 +820,7 @@ pub fn plan(tier: Tier) -> Plan {
         // model's covering schedules replayed on the implementation (the model
         // exploration itself is always complete)
         Tier::Quick => vec![(2, 1, 3, 2, 1), (3, 1, 2, 2, 10)],
-        Tier::Thorough => vec![(2, 2, 4, 3, 1), (3, 1, 3, 2, 2), (4, 1, 1, 0, 4)],
+        Tier::Thorough => vec![(2, 2, 3, 3, 1), (3, 1, 3, 2, 4), (4, 1, 1, 0, 4)],
     };
     let mm = 4usize;
     for spec in specs.iter() {
